@@ -318,6 +318,7 @@ def capabilities_rule(prog: Program, rep: Report) -> None:
     setid = ("item", irs, T.seq("s", (("L", "IRSetID"),)))
     special = prog.const(f"{REMOTES}:SPECIAL_SWING_COMMAND_REMOTE_IDS")
     bad_t = bad_s = bad_w = bad_r = None
+    und_r: Optional[str] = None
     n_temp = n_wave = 0
     for o in rets:
         ho = o.state.heap[o.value[1]]
@@ -369,6 +370,11 @@ def capabilities_rule(prog: Program, rep: Report) -> None:
                         and any(T.is_c(x) and isinstance(x[1], int) and ((x[1] < 0) if neg_start else (x[1] > 0)) for x in (v[2], v[3])))
             if _ext(fmax, "max", True) and _ext(fmin, "min", False):
                 pass   # both bounds follow the temperature unconditionally: independent by construction
+            elif fmax == t and fmin == t:
+                pass   # after the one wave both bounds are its temperature (e.g. the ends of the sorted list of temperatures)
+            elif (not gmax and not T.is_c(fmax)) or (not gmin and not T.is_c(fmin)):
+                und_r = (f"range after one wave with temperature t: max={T.show(fmax)[:80]} min={T.show(fmin)[:80]} with no comparison of t against a bound on the path: "
+                         f"a form this rule does not compare")
             elif not gmax or not gmin:
                 bad_r = (f"for a wave with a numeric temperature the {'upper' if not gmax else 'lower'} bound of the range is not examined on a path "
                          f"(guards {[T.show(g)[:60] for g in pcs if isinstance(g, tuple) and g[0] == 'cmp' and g[2] == t]}): a temperature that extends one bound can never extend the other, "
@@ -389,7 +395,10 @@ def capabilities_rule(prog: Program, rep: Report) -> None:
     if n_temp == 0:
         rep.undecided("R15.7", "temperature range", where, "no path with a numeric temperature explored")
     else:
-        rep.check(bad_r is None, "R15.7", "temperature range: min and max updated independently from key[2:4]", where, bad_r or "", f"{n_temp} paths", key="R15.7|range")
+        if bad_r is None and und_r is not None:
+            rep.undecided("R15.7", "temperature range: min and max updated independently from key[2:4]", where, und_r)
+        else:
+            rep.check(bad_r is None, "R15.7", "temperature range: min and max updated independently from key[2:4]", where, bad_r or "", f"{n_temp} paths", key="R15.7|range")
 
 
 def cache_rule(prog: Program, rep: Report) -> None:
